@@ -3,7 +3,7 @@
    normalisation is unobservable at operator level:  op (dialect_flags f) = op f.  (Used to make
    C30 unconditional in the flag set.) *)
 From Coq Require Import Lia.
-From Clvm Require Import Model.Dialect Proofs.OpContractDefs Proofs.OpContractsCrypto Proofs.OpContractsMore
+From Clvm Require Import Model.Dialect Proofs.OpContractDefs Proofs.OpContractsCore Proofs.OpContractsCrypto Proofs.OpContractsMore
   Proofs.OpContractsMore2 Proofs.DialectContracts.
 Open Scope N_scope.
 
@@ -50,3 +50,169 @@ Lemma mod_limits : op_limits_norm op_mod.
 Proof. direct_limits ltac:(unfold op_mod, op_mod_num, op_mod_malachite, op_mod_malachite_with). Qed.
 Lemma modpow_limits : op_limits_norm op_modpow.
 Proof. direct_limits ltac:(unfold op_modpow, op_modpow_num, op_modpow_malachite, op_modpow_malachite_with). Qed.
+
+(* ------------------------------------------------------------------ g1_multiply / g2_multiply *)
+Lemma bls_g1_multiply_limits P : op_limits_norm (op_bls_g1_multiply P).
+Proof. direct_limits ltac:(unfold op_bls_g1_multiply). Qed.
+Lemma bls_g2_multiply_limits P : op_limits_norm (op_bls_g2_multiply P).
+Proof. direct_limits ltac:(unfold op_bls_g2_multiply). Qed.
+
+(* ================================================================== the general form
+   [flags_sim f f']: the two flag sets agree on every flag except ENABLE_GC (which no operator
+   reads) and, under NEW_COST_MODEL, LIMITS and DISABLE_OP (which every operator reads only in the
+   form `flag && !new_cost_model && ...`). [op_mask_indep]: such flag sets are indistinguishable
+   for the operator. Instances: f ~ dialect_flags f (ChiaDialect::new), f ~ f minus ENABLE_GC,
+   and, under NEW_COST_MODEL or without DISABLE_OP, f ~ f minus DISABLE_OP. *)
+Definition flags_sim (f f' : flagset) : Prop :=
+  f_canonical_ints f = f_canonical_ints f' /\ f_no_unknown_ops f = f_no_unknown_ops f' /\
+  f_limit_heap f = f_limit_heap f' /\ f_relaxed_bls f = f_relaxed_bls f' /\
+  f_limit_softfork f = f_limit_softfork f' /\
+  f_keccak_outside_guard f = f_keccak_outside_guard f' /\
+  f_sha256_tree f = f_sha256_tree f' /\ f_secp_ops f = f_secp_ops f' /\
+  f_malachite f = f_malachite f' /\ f_new_cost_model f = f_new_cost_model f' /\
+  (f_new_cost_model f = false -> f_limits f = f_limits f' /\ f_disable_op f = f_disable_op f').
+
+Definition op_mask_indep (op : opfn) : Prop := forall f f' a m, flags_sim f f' -> op f a m = op f' a m.
+
+Lemma flags_sim_refl f : flags_sim f f.
+Proof. repeat split; reflexivity. Qed.
+Lemma flags_sim_sym f f' : flags_sim f f' -> flags_sim f' f.
+Proof.
+  intros (H1&H2&H3&H4&H5&H6&H7&H8&H9&H10&H11). repeat split; try (symmetry; assumption);
+  rewrite <- H10 in H; destruct (H11 H) as [A B]; symmetry; assumption.
+Qed.
+Lemma flags_sim_trans f f' f'' : flags_sim f f' -> flags_sim f' f'' -> flags_sim f f''.
+Proof.
+  intros (H1&H2&H3&H4&H5&H6&H7&H8&H9&H10&H11) (G1&G2&G3&G4&G5&G6&G7&G8&G9&G10&G11).
+  repeat split; try congruence;
+  destruct (H11 H) as [A B]; rewrite H10 in H; destruct (G11 H) as [A' B']; congruence.
+Qed.
+
+Lemma flags_sim_dialect_flags f : flags_sim f (dialect_flags f).
+Proof.
+  unfold dialect_flags. destruct (f_new_cost_model f) eqn:E; [|apply flags_sim_refl].
+  repeat split; try reflexivity; try assumption; cbn; congruence.
+Qed.
+
+Lemma flags_sim_with_keccak f f' : flags_sim f f' -> flags_sim (with_keccak f) (with_keccak f').
+Proof. intros (H1&H2&H3&H4&H5&H6&H7&H8&H9&H10&H11). repeat split; cbn; try assumption; apply H11; assumption. Qed.
+
+Lemma flags_sim_op_flags f f' ext : flags_sim f f' -> flags_sim (op_flags f ext) (op_flags f' ext).
+Proof. intros H. destruct ext; cbn [op_flags]; try exact H; apply flags_sim_with_keccak, H. Qed.
+
+Lemma reads_ncm_mask op : reads_ncm op -> op_mask_indep op.
+Proof. intros H f f' a m Hs. apply H. apply Hs. Qed.
+
+(* the operators that read LIMITS / DISABLE_OP: case NEW_COST_MODEL off = all the flags they read
+   are equal; case on = both sides are the operator on the flag set without the masked bits *)
+Ltac sim_parts Hs :=
+  let H1 := fresh in let H2 := fresh in let H3 := fresh in let H4 := fresh in let H5 := fresh in
+  let H6 := fresh in let H7 := fresh in let H8 := fresh in let H9 := fresh in
+  destruct Hs as (H1&H2&H3&H4&H5&H6&H7&H8&H9&Hn&Hlim).
+
+Ltac mask_direct :=
+  match goal with Hn : f_new_cost_model ?f = f_new_cost_model ?f', Hlim : _ -> _ |- _ =>
+    rewrite Hn in *; destruct (f_new_cost_model f') eqn:En;
+    [ destruct (f_limits f), (f_limits f'), (f_disable_op f), (f_disable_op f'); cbn [andb negb]; reflexivity
+    | destruct (Hlim eq_refl) as [El Ed]; rewrite ?El, ?Ed; reflexivity ]
+  end.
+
+Lemma mul_loop_mask l1 l2 ncm sq args : (ncm = false -> l1 = l2) -> forall cost total l0 m,
+  mul_loop l1 ncm sq args cost total l0 m = mul_loop l2 ncm sq args cost total l0 m.
+Proof.
+  intros H. destruct ncm; [|rewrite (H eq_refl); reflexivity].
+  destruct l1, l2; intros; try reflexivity; [symmetry|]; apply mul_loop_limits.
+Qed.
+
+Lemma multiply_mask : op_mask_indep op_multiply.
+Proof.
+  intros f f' a m Hs. sim_parts Hs.
+  destruct (f_new_cost_model f') eqn:En; rewrite ?En in Hn.
+  - (* both sides equal the operator without LIMITS *)
+    rewrite <- (multiply_limits f a m), <- (multiply_limits f' a m).
+    apply multiply_flags; unfold dialect_flags; rewrite ?Hn, ?En; reflexivity.
+  - destruct (Hlim Hn) as [El _]. apply multiply_flags; congruence.
+Qed.
+
+Lemma div_mask : op_mask_indep op_div.
+Proof. intros f f' a m Hs. sim_parts Hs. rewrite !div_is_num. unfold op_div_num. mask_direct. Qed.
+Lemma divmod_mask : op_mask_indep op_divmod.
+Proof. intros f f' a m Hs. sim_parts Hs. rewrite !divmod_is_num. unfold op_divmod_num. mask_direct. Qed.
+Lemma mod_mask : op_mask_indep op_mod.
+Proof. intros f f' a m Hs. sim_parts Hs. rewrite !mod_is_num. unfold op_mod_num. mask_direct. Qed.
+Lemma modpow_mask : op_mask_indep op_modpow.
+Proof. intros f f' a m Hs. sim_parts Hs. rewrite !modpow_is_num. unfold op_modpow_num. cbv zeta. mask_direct. Qed.
+Lemma bls_g1_multiply_mask P : op_mask_indep (op_bls_g1_multiply P).
+Proof. intros f f' a m Hs. sim_parts Hs. unfold op_bls_g1_multiply. mask_direct. Qed.
+Lemma bls_g2_multiply_mask P : op_mask_indep (op_bls_g2_multiply P).
+Proof. intros f f' a m Hs. sim_parts Hs. unfold op_bls_g2_multiply. mask_direct. Qed.
+
+Lemma negate_op_mask size base valid : op_mask_indep (negate_op size base valid).
+Proof. intros f f' a m Hs. apply negate_op_flags, Hs. Qed.
+
+Lemma unknown_operator_mask o : op_mask_indep (unknown_operator o).
+Proof.
+  intros f f' a m Hs. unfold unknown_operator.
+  rewrite (unknown_reads o f f' a m) by apply Hs. destruct Hs as (_ & H2 & _). rewrite H2. reflexivity.
+Qed.
+
+Lemma all_ops_mask_indep P : Forall op_mask_indep (all_ops P).
+Proof.
+  unfold all_ops.
+  repeat (constructor; [first
+    [ apply multiply_mask | apply div_mask | apply divmod_mask | apply mod_mask | apply modpow_mask
+    | apply bls_g1_multiply_mask | apply bls_g2_multiply_mask | apply negate_op_mask
+    | apply reads_ncm_mask; first
+      [ apply if_reads | apply cons_reads | apply first_reads | apply rest_reads | apply listp_reads
+      | apply raise_reads | apply eq_reads | apply add_reads | apply subtract_reads | apply gr_reads
+      | apply substr_reads | apply binop_reads | apply sha256_reads | apply sha256_tree_reads
+      | apply coinid_ncm | apply keccak256_ncm | apply bls_map_to_g1_ncm | apply bls_map_to_g2_ncm
+      | apply bls_pairing_identity_ncm | apply bls_verify_ncm
+      | apply reads_none_ncm; first
+        [ apply gr_bytes_reads | apply strlen_reads | apply concat_reads | apply ash_reads | apply lsh_reads
+        | apply lognot_reads | apply not_reads | apply any_reads | apply all_reads ]
+      | intros f f' a m _; reflexivity ] ]|]).
+  constructor.
+Qed.
+
+(* ------------------------------------------------------------------ lifted through the dispatch *)
+Lemma runtime_op_mask P f f' o a m ext : flags_sim f f' ->
+  runtime_op P f o a m ext = runtime_op P f' o a m ext.
+Proof.
+  intros Hs. unfold runtime_op. destruct o as [b|]; [|reflexivity].
+  pose proof (all_ops_mask_indep P) as HA. rewrite Forall_forall in HA.
+  destruct b as [|x [|y r]]; try (apply unknown_operator_mask; exact Hs).
+  destruct (runtime_table P x) as [g|] eqn:T.
+  - apply runtime_table_in in T. apply (HA _ T). exact Hs.
+  - apply unknown_operator_mask; exact Hs.
+Qed.
+
+Lemma chia_table_mask P f f' op : flags_sim f f' -> chia_table P f op = chia_table P f' op.
+Proof.
+  intros Hs. sim_parts Hs.
+  assert (Ed : f_disable_op f && negb (f_new_cost_model f) = f_disable_op f' && negb (f_new_cost_model f')).
+  { rewrite <- Hn. destruct (f_new_cost_model f) eqn:En; [rewrite !andb_false_r; reflexivity|].
+    destruct (Hlim eq_refl) as [_ ->]. reflexivity. }
+  unfold chia_table.
+  repeat match goal with H : _ = _ |- _ => rewrite H; clear H end.
+  reflexivity.
+Qed.
+
+Lemma chia_op_mask P know4 f f' o a m ext : flags_sim f f' ->
+  chia_op P know4 f o a m ext = chia_op P know4 f' o a m ext.
+Proof.
+  intros Hs0. pose proof (flags_sim_op_flags f f' ext Hs0) as Hs. unfold chia_op.
+  destruct o as [b|]; [|reflexivity].
+  pose proof (all_ops_mask_indep P) as HA. rewrite Forall_forall in HA.
+  destruct (length b =? 4)%nat.
+  - destruct (know4 && bytes_eqb b SECP256K1_OPCODE)%bool; [reflexivity|].
+    destruct (know4 && bytes_eqb b SECP256R1_OPCODE)%bool; [reflexivity|].
+    apply unknown_operator_mask; exact Hs.
+  - destruct (negb (length b =? 1)%nat); [apply unknown_operator_mask; exact Hs|].
+    destruct (small_number (Atom b)) as [op|]; [|apply unknown_operator_mask; exact Hs].
+    rewrite <- (chia_table_mask P _ _ op Hs).
+    destruct (chia_table P (op_flags f ext) op) as [[g|e]|] eqn:T.
+    + apply chia_table_in in T. apply (HA _ T). exact Hs.
+    + reflexivity.
+    + apply unknown_operator_mask; exact Hs.
+Qed.
